@@ -1162,6 +1162,11 @@ impl Visitor for ScopeVisitor {
         if let ast::luau::TypeInfo::Module { module, .. } = type_info {
             self.read_name(module);
         }
+
+        // `typeof(expression)`: the expression is evaluated by no one, but its names are resolved like any other
+        if let ast::luau::TypeInfo::Typeof { inner, .. } = type_info {
+            self.read_expression(inner);
+        }
     }
 }
 
